@@ -52,7 +52,7 @@ def _random_rel(rng, n, vects, pbc, target):
     return np.array(rel)
 
 
-def gen_system(rng, syskind, cell, pbc, ntypes, propclass, atolclass):
+def gen_system(rng, syskind, cell, pbc, ntypes, propclass, atolclass, nmax=24):
     """Returns a dict describing one system (arrays only).
 
     Guarantees: all atoms pairwise farther apart (27-image separation under the
@@ -77,7 +77,7 @@ def gen_system(rng, syskind, cell, pbc, ntypes, propclass, atolclass):
         rel = _random_rel(rng, n, v, pbc, 0.5 * (vol / n) ** (1 / 3))
         pos = G.cart(rel, v, o)
     elif syskind in ('random', 'unwrapped', 'pair'):
-        n = int(rng.integers(4, 25))
+        n = int(rng.integers(4, nmax + 1))
         rel = _random_rel(rng, n, v, pbc, 0.5 * (vol / n) ** (1 / 3))
         if syskind == 'unwrapped':
             sh = rng.integers(-1, 2, (n, 3)) * (rng.random((n, 1)) < 0.6)
